@@ -354,7 +354,7 @@ Fixpoint check_from (k : case) (s : state) (po : obs) (ws : list (Z * Z)) (steps
     outside the hypotheses is a harness defect and is reported as a divergence at step 0. *)
 Definition wf_op_b (o : op) : bool :=
   match o with
-  | Create m => negb (m_sender m =? ESC) && negb (m_sender m =? BLK) && negb (m_to m =? ESC)
+  | Create m => negb (m_sender m =? ESC) && negb (m_sender m =? BLK)
   | _ => true
   end.
 Definition params_ok_b (P : list aparam) : bool := forallb (fun p => (0 <=? ap_limit p) && (0 <=? ap_tbl p)) P.
